@@ -56,7 +56,7 @@ theorem flagged_refuses (env : Nat → Content) (sd : SlotData) (s : Shred) (h :
     * the announced parent is in an earlier slot (fix D3),
     and exactly this block is what is stored as `completed`. -/
 theorem announced_block_wellformed (env : Nat → Content) (b b' : BlockData) (s : Shred) (info : BlockInfo)
-    (h : addShred env b s = (b', .ev (.block info))) :
+    (h : addShredCore env b s = (b', .ev (.block info))) :
     ∃ (b1 : BlockData) (first : RSlice) (p0 : Nat × Nat) (txs : List Nat),
       let vals := mapVals b1.cap b1.slices
       info.hash = (Merkle.Tree.new (vals.map (·.root))).root ∧
@@ -75,16 +75,25 @@ theorem announced_block_wellformed (env : Nat → Content) (b b' : BlockData) (s
   · exact Or.inl h1
   · exact Or.inr ⟨r, h2, h3, h4⟩
 
-/-- **Conflicting slices are flagged.** A validly signed shred whose commitment differs from the one
-    cached for its slice index is answered `Equivocation`, and (on the dissemination path of a slot
+/-- **A shred whose data/coding type does not fit its index is ignored** (D15 `fix:`): on an unflagged slot it
+    changes nothing, sends nothing and flags nobody - whatever else it carries. (This is why the two theorems below
+    got the premise `s.ty = true`: the blockstore cannot tell a relay's flip from the leader's doing, so it neither
+    stores nor blames; at node level a conflicting commitment is still reported, by `try_new`, before the type is
+    looked at - C12 `node_conflict_reported`.) -/
+theorem wrong_type_ignored (env : Nat → Content) (sd : SlotData) (s : Shred) (hm : sd.misbehaved = false)
+    (hty : s.ty = false) : addDissem env sd s = (sd, .err .wrongType, []) :=
+  addDissem_wrongType env sd s hm hty
+
+/-- **Conflicting slices are flagged.** A validly signed shred (of the type that fits its index) whose commitment
+    differs from the one cached for its slice index is answered `Equivocation`, and (on the dissemination path of a slot
     not yet flagged) exactly one `InvalidBlock` is sent and the slot is flagged. -/
 theorem conflicting_slice_flagged (env : Nat → Content) (sd : SlotData) (s : Shred) (c : Commitment)
-    (hm : sd.misbehaved = false) (hc : sd.dis.cache s.slice = some c) (hne : c ≠ s.commitment) :
+    (hm : sd.misbehaved = false) (hty : s.ty = true) (hc : sd.dis.cache s.slice = some c) (hne : c ≠ s.commitment) :
     (addDissem env sd s).2 = (.err .equivocation, [.invalidBlock]) ∧ (addDissem env sd s).1.misbehaved = true := by
   unfold addDissem
-  simp only [hm, Bool.false_eq_true, if_false]
-  have : addShred env sd.dis s = (sd.dis, .err .equivocation) := by
-    unfold addShred cacheStep; simp [hc, hne]
+  simp only [hm, Bool.false_eq_true, if_false, addShred_of_ty env sd.dis s hty]
+  have : addShredCore env sd.dis s = (sd.dis, .err .equivocation) := by
+    unfold addShredCore cacheStep; simp [hc, hne]
   simp [this, isBadErr, flag, hm]
 
 /-- **Contradictory last-slice markers are flagged**, in both arrival orders: once slice `l` is marked
@@ -92,14 +101,14 @@ theorem conflicting_slice_flagged (env : Nat → Content) (sd : SlotData) (s : S
     `Equivocation`; and a last marker on slice `k` arriving after any shred of a slice beyond `k` is
     `Equivocation` too (fix D2). -/
 theorem contradictory_marker_flagged (env : Nat → Content) (sd : SlotData) (s : Shred)
-    (hm : sd.misbehaved = false)
+    (hm : sd.misbehaved = false) (hty : s.ty = true)
     (hbad : (∃ l, sd.dis.lastSlice = some l ∧ ¬ ((s.slice < l ∧ s.isLast = false) ∨ (s.slice = l ∧ s.isLast = true))) ∨
             (sd.dis.lastSlice = none ∧ s.isLast = true ∧ ∃ k, s.slice < k ∧ k < sd.dis.cap ∧ (sd.dis.cache k).isSome)) :
     (addDissem env sd s).2 = (.err .equivocation, [.invalidBlock]) ∧ (addDissem env sd s).1.misbehaved = true := by
   unfold addDissem
-  simp only [hm, Bool.false_eq_true, if_false]
-  have : (addShred env sd.dis s).2 = .err .equivocation := by
-    unfold addShred
+  simp only [hm, Bool.false_eq_true, if_false, addShred_of_ty env sd.dis s hty]
+  have : (addShredCore env sd.dis s).2 = .err .equivocation := by
+    unfold addShredCore
     cases hcs : cacheStep sd.dis s with
     | none => rfl
     | some b1 =>
@@ -133,7 +142,7 @@ theorem contradictory_marker_flagged (env : Nat → Content) (sd : SlotData) (s 
             simp [hk1, hk3]
           simp [this]
       simp [hls]
-  cases hr : addShred env sd.dis s with
+  cases hr : addShredCore env sd.dis s with
   | mk b r =>
     rw [hr] at this
     simp only at this
@@ -157,12 +166,12 @@ theorem addDissem_good (B : HBlock) (env : Nat → Content) (cap : Nat) (hwf : B
     (sd : SlotData) (s : Shred) (hg : GoodSd B cap sd) (hs : B.Honest s) :
     GoodSd B cap (addDissem env sd s).1 ∧ HonestRes B (addDissem env sd s).2.1 ∧
       (addDissem env sd s).2.2 = evOf (addDissem env sd s).2.1 ∧
-      (addDissem env sd s).1.dis = (addShred env sd.dis s).1 ∧ (addDissem env sd s).2.1 = (addShred env sd.dis s).2 := by
+      (addDissem env sd s).1.dis = (addShredCore env sd.dis s).1 ∧ (addDissem env sd s).2.1 = (addShredCore env sd.dis s).2 := by
   obtain ⟨hm, hgd⟩ := hg
   have h := addShred_good B env cap hwf sd.dis s hgd hs
   unfold addDissem
-  simp only [hm, Bool.false_eq_true, if_false]
-  cases hr : addShred env sd.dis s with
+  simp only [hm, Bool.false_eq_true, if_false, addShred_of_ty env sd.dis s hs.ty]
+  cases hr : addShredCore env sd.dis s with
   | mk b r =>
     rw [hr] at h
     simp only at h ⊢
@@ -187,7 +196,7 @@ theorem addDissem_good (B : HBlock) (env : Nat → Content) (cap : Nat) (hwf : B
     * the `Block` event is sent at most once;
     * everything the store holds afterwards (shreds, reconstructed slices, cached commitments, last
       slice index, completed block) is the leader's (`Good`). -/
-theorem honest_never_flagged (B : HBlock) (env : Nat → Content) (cap : Nat) (hwf : B.WF env cap)
+theorem honest_never_flagged_typed (B : HBlock) (env : Nat → Content) (cap : Nat) (hwf : B.WF env cap)
     (sd : SlotData) (hg : GoodSd B cap sd) (ss : List Shred) (hss : ∀ s ∈ ss, B.Honest s) :
     GoodSd B cap (runDissem env sd ss).1 ∧
     (∀ e ∈ (runDissem env sd ss).2, e = .firstShred ∨ e = .block B.block.info) ∧
@@ -225,17 +234,72 @@ theorem honest_never_flagged (B : HBlock) (env : Nat → Content) (cap : Nat) (h
         · -- announced now: complete afterwards, so never again
           have hcomp' : (addDissem env sd s).1.dis.completed.isSome = true := by
             rw [hdis]
-            have heq : addShred env sd.dis s = ((addShred env sd.dis s).1, .ev (.block B.block.info)) :=
+            have heq : addShredCore env sd.dis s = ((addShredCore env sd.dis s).1, .ev (.block B.block.info)) :=
               Prod.ext rfl (by rw [← hr]; exact h)
-            obtain ⟨b1, hb1⟩ := addShred_block_origin env sd.dis (addShred env sd.dis s).1 s B.block.info heq
+            obtain ⟨b1, hb1⟩ := addShred_block_origin env sd.dis (addShredCore env sd.dis s).1 s B.block.info heq
             obtain ⟨_, _, _, _, _, _, _, _, _, _, _, _, hcc, _⟩ := tryReconstructBlock_complete b1 _ _ hb1
             rw [hcc]; rfl
           simp only [hcomp', if_true] at ih3
           rw [h]; simp [evOf]; omega
 
+/-- a shred of the leader's block as it may arrive: the leader's shred, except that whoever passed it on may have
+    flipped the (unauthenticated) data/coding type -/
+def HBlock.HonestUpToType (B : HBlock) (s : Shred) : Prop := B.Honest { s with ty := true }
+
+theorem HBlock.Honest.upToType {B : HBlock} {s : Shred} (hs : B.Honest s) : B.HonestUpToType s := by
+  have := hs.ty
+  cases s; simp_all [HBlock.HonestUpToType]
+
+theorem HBlock.HonestUpToType.honest {B : HBlock} {s : Shred} (hs : B.HonestUpToType s) (hty : s.ty = true) :
+    B.Honest s := by
+  cases s; simp_all [HBlock.HonestUpToType]
+
+/-- **Relayed type flips are invisible** (D15 `fix:`): from a store that holds only the leader's data, a delivery of
+    the leader's shreds some of which had their data/coding type flipped on the way behaves - state and events -
+    exactly like the delivery without those shreds. Every theorem below about deliveries of the leader's own shreds
+    (`honest_run_exact`, `honest_block_timely`, `delivery_order_independent`, …) therefore applies to the deliveries
+    with flips through this equation. -/
+theorem relayed_type_flips_ignored (B : HBlock) (env : Nat → Content) (cap : Nat) (hwf : B.WF env cap)
+    (sd : SlotData) (hg : GoodSd B cap sd) (ss : List Shred) (hss : ∀ s ∈ ss, B.HonestUpToType s) :
+    runDissem env sd ss = runDissem env sd (ss.filter (·.ty)) ∧ ∀ s ∈ ss.filter (·.ty), B.Honest s := by
+  refine ⟨?_, ?_⟩
+  · induction ss generalizing sd with
+    | nil => rfl
+    | cons s rest ih =>
+      have hrest : ∀ x ∈ rest, B.HonestUpToType x := fun x hx => hss x (List.mem_cons_of_mem _ hx)
+      cases hty : s.ty with
+      | false =>
+        simp only [List.filter_cons, hty, Bool.false_eq_true, if_false]
+        rw [← ih sd hg hrest]
+        simp only [runDissem, wrong_type_ignored env sd s hg.1 hty, List.nil_append]
+      | true =>
+        have hs := (hss s List.mem_cons_self).honest hty
+        obtain ⟨hg1, _⟩ := addDissem_good B env cap hwf sd s hg hs
+        simp only [List.filter_cons, hty, if_true, runDissem]
+        rw [ih _ hg1 hrest]
+  · intro s hs
+    obtain ⟨h1, h2⟩ := List.mem_filter.mp hs
+    exact (hss s h1).honest h2
+
+/-- **A correct leader's block: never flagged, announced at most once, and only as itself - whatever relays do to
+    the data/coding type of its shreds** (`honest_block_once`, safety layer, at full strength since the D15 `fix:`).
+    The statement of `honest_never_flagged_typed` for every delivery of shreds that are the leader's *up to the
+    unauthenticated type*: no `InvalidBlock`, never flagged, only the leader's block and at most once, and the store
+    holds only the leader's data afterwards. (On the pinned snapshot one flipped shred among 32 of a slice made the
+    reconstruction fail and the leader flagged: `tag_flip_flagged_old_witness`.) -/
+theorem honest_never_flagged (B : HBlock) (env : Nat → Content) (cap : Nat) (hwf : B.WF env cap)
+    (sd : SlotData) (hg : GoodSd B cap sd) (ss : List Shred) (hss : ∀ s ∈ ss, B.HonestUpToType s) :
+    GoodSd B cap (runDissem env sd ss).1 ∧
+    (∀ e ∈ (runDissem env sd ss).2, e = .firstShred ∨ e = .block B.block.info) ∧
+    ((runDissem env sd ss).2.count (.block B.block.info) ≤ (if sd.dis.completed.isSome then 0 else 1)) := by
+  obtain ⟨heq, hh⟩ := relayed_type_flips_ignored B env cap hwf sd hg ss hss
+  rw [heq]
+  exact honest_never_flagged_typed B env cap hwf sd hg _ hh
+
 /-- the very first shred of a correct leader's block is announced as `FirstShred` -/
 theorem honest_first_shred (B : HBlock) (env : Nat → Content) (cap : Nat) (s : Shred) (hs : B.Honest s) (hcap : B.n ≤ cap) :
     (addDissem env (SlotData.new cap B.slot) s).2 = (.ev .firstShred, [.firstShred]) := by
+  have hty := hs.ty
   obtain ⟨hlt, _, heq⟩ := hs
   have hempty : mapEmpty cap (fun _ : Nat => (none : Option ShredArr)) = true := by simp [mapEmpty]
   have hka : hasKeyAbove cap (upd (fun _ => none) s.slice (some s.commitment)) s.slice = false := by
@@ -245,7 +309,9 @@ theorem honest_first_shred (B : HBlock) (env : Nat → Content) (cap : Nat) (s :
     split at hi
     · omega
     · simp at hi
-  unfold addDissem addShred cacheStep lastStep
+  unfold addDissem
+  rw [addShred_of_ty _ _ s hty]
+  unfold addShredCore cacheStep lastStep
   simp only [SlotData.new, BlockData.new, Bool.false_eq_true, if_false]
   by_cases hl : s.isLast = true
   · simp [hl, hka, markLastSlice, storeStep, arrEmpty, retainLe, mapEmpty, isBadErr, evOf]
@@ -639,5 +705,50 @@ theorem d3_d2_witness :
       ((List.range 32).map (exB.shred 1) ++ (List.range 32).map (exB.shred 0))).2 = [.firstShred, .invalidBlock] ∧
     (runDissem exEnv (SlotData.new 3 5) [⟨2, false, 2, 0, 2, true⟩, exB.shred 1 0]).2 = [.firstShred, .invalidBlock] := by
   decide +kernel
+
+/-- `add_shred_from_dissemination` / a delivery on the pinned snapshot (before the D15 `fix:`): `addShredCore`
+    without the type check -/
+def addDissemOld (env : Nat → Content) (sd : SlotData) (s : Shred) : SlotData × AddRes × List Event :=
+  if sd.misbehaved then (sd, .err .invalidShred, [])
+  else
+    let (b, r) := addShredCore env sd.dis s
+    let sd := { sd with dis := b }
+    if isBadErr r then
+      let (sd, evs) := flag sd
+      (sd, r, evs)
+    else (sd, r, evOf r)
+
+def runDissemOld (env : Nat → Content) : SlotData → List Shred → SlotData × List Event
+  | sd, [] => (sd, [])
+  | sd, s :: rest =>
+    let (sd', _, evs) := addDissemOld env sd s
+    let (sd'', evs') := runDissemOld env sd' rest
+    (sd'', evs ++ evs')
+
+/-- the leader's shred (0, 7) with its data/coding type flipped by a relay -/
+def exFlip : Shred := { exB.shred 0 7 with ty := false }
+
+/-- **Witness of defect D15 and of its repair.** A delivery of shreds of the correct leader's block `exB`
+    (all of slice 1, then 31 genuine shreds of slice 0 and the type-flipped one): the pinned blockstore stores the
+    flipped shred, the 32nd shred of slice 0 makes `deshred` fail on the layout and the *correct* leader is flagged
+    (`InvalidBlock`), the block is never announced, the missing genuine shreds are refused afterwards. The repaired
+    blockstore answers the flipped shred `WrongType`, and the same delivery followed by one more genuine shred
+    announces the block; the flipped shred is `HonestUpToType`, so `honest_never_flagged` applies to it. -/
+theorem tag_flip_flagged_old_witness :
+    (runDissemOld exEnv (SlotData.new 3 5)
+      ((List.range 32).map (exB.shred 1) ++ exFlip :: (List.range 31).map (fun j => exB.shred 0 (j + 20)))).2
+        = [.firstShred, .invalidBlock] ∧
+    (runDissemOld exEnv (SlotData.new 3 5)
+      ((List.range 32).map (exB.shred 1) ++ exFlip :: (List.range 31).map (fun j => exB.shred 0 (j + 20))
+        ++ [exB.shred 0 5, exB.shred 0 7])).2 = [.firstShred, .invalidBlock] ∧
+    (addDissem exEnv (runDissem exEnv (SlotData.new 3 5) ((List.range 32).map (exB.shred 1))).1 exFlip).2
+        = (.err .wrongType, []) ∧
+    (runDissem exEnv (SlotData.new 3 5)
+      ((List.range 32).map (exB.shred 1) ++ exFlip :: (List.range 31).map (fun j => exB.shred 0 (j + 20))
+        ++ [exB.shred 0 5])).2 = [.firstShred, .block exB.block.info] ∧
+    exB.HonestUpToType exFlip ∧ ¬ exB.Honest exFlip := by
+  refine ⟨by decide +kernel, by decide +kernel, by decide +kernel, by decide +kernel, ?_, ?_⟩
+  · exact ⟨by decide, by decide, rfl⟩
+  · intro h; have := h.ty; simp [exFlip] at this
 
 end AgModel.Blockstore
